@@ -6,6 +6,7 @@ import (
 	"math/rand/v2"
 	"os"
 	"path/filepath"
+	"runtime"
 	"sort"
 	"time"
 
@@ -127,6 +128,14 @@ func genScenario(rng *rand.Rand, n int, allTransports bool) *Scenario {
 		sp.Plan = genPlan(rng, sc, sp.Transport)
 		sc.Readers = append(sc.Readers, sp)
 	}
+	if rng.IntN(5) == 0 {
+		// second direction: a recording client publishes, the server session re-writes to the stream
+		sc.Relay = []string{"tcp", "tcp", "udp"}[rng.IntN(3)]
+		sc.PubCap = []int{8, 16, 64, 256}[rng.IntN(4)]
+		if sc.Relay == "udp" {
+			anyUDP = true
+		}
+	}
 	if !anyUDP && !sc.TLS && rng.IntN(2) == 0 {
 		// (with SRTP a reader that misses a packet loses the rollover counter: known finding, see srtpArbSeqScenario)
 		sc.ArbSeq = true
@@ -135,6 +144,27 @@ func genScenario(rng *rand.Rand, n int, allTransports bool) *Scenario {
 		sc.Pace = 1 + rng.IntN(16)
 	} else if rng.IntN(3) == 0 {
 		sc.Pace = 32
+	}
+	if sc.Relay != "" {
+		sc.Pace = 1 + rng.IntN(6)
+	}
+	if sc.Relay == "udp" {
+		// A UDP reader's session must not close while the UDP publisher is active: the harness reads
+		// ServerSession.Stats() inside the publisher's OnPacketRTP callback (server UDP listener goroutine,
+		// clients read-lock held) and a closing UDP session holds its props lock while it waits for the
+		// clients write-lock (serverSessionMedia.stop -> removeClient): lock-order inversion, outside C01.
+		for r := range sc.Readers {
+			if sc.Readers[r].Transport != "udp" {
+				continue
+			}
+			var plan []Step
+			for _, st := range sc.Readers[r].Plan {
+				if st.Op != "leave" {
+					plan = append(plan, st)
+				}
+			}
+			sc.Readers[r].Plan = plan
+		}
 	}
 	return sc
 }
@@ -149,7 +179,15 @@ func runScenario(c *corr.Ctx, sc *Scenario, name string, st *runStats) {
 	st.runs++
 	h := &harness{sc: sc, pk: genPackets(sc)}
 	tStart := time.Now()
+	watchdog := time.AfterFunc(120*time.Second, func() {
+		b, _ := json.Marshal(sc)
+		buf := make([]byte, 1<<20)
+		n := runtime.Stack(buf, true)
+		fmt.Fprintf(os.Stderr, "scenario %s does not finish (deadlock?): %s\n%s\n", name, b, buf[:n])
+		panic("pipe: scenario " + name + " did not finish within 120 s")
+	})
 	err := h.run()
+	watchdog.Stop()
 	if os.Getenv("PIPE_DEBUG") != "" {
 		fmt.Fprintf(os.Stderr, "-- %s took %v (write phase %v)\n", name, time.Since(tStart).Round(time.Millisecond), h.tWrite.Round(time.Millisecond))
 	}
@@ -163,6 +201,21 @@ func runScenario(c *corr.Ctx, sc *Scenario, name string, st *runStats) {
 	}
 	for _, rd := range h.readers {
 		sort.SliceStable(rd.recs, func(i, j int) bool { return rd.recs[i].stamp < rd.recs[j].stamp })
+	}
+	if sc.Relay != "" {
+		h.pkPub = h.pk
+		h.checkRelay(c)
+		if !sc.NoModel {
+			c.Add(h.buildPubCase(name + "/pub"))
+		}
+		h.reindex()
+		c.Dist("relay:" + sc.Relay)
+		c.DistN("relay-received", len(h.relayRecs))
+		for _, o := range h.pubOut {
+			if o == 'f' {
+				c.Dist("publisher-queue-full")
+			}
+		}
 	}
 	h.checkProperty(c)
 	if os.Getenv("PIPE_DEBUG") != "" {
